@@ -91,8 +91,29 @@ def vmsa (f : Fields) : String :=
   | .err c => "reject=" ++ c
   | .panic s => "panic=" ++ panicFn s
 
+/-- `c04 op=vmsax set=<Field>:<nat>;… rset=<Field>:<hex>;…` — PutVmsa of the reset state with the named numeric
+    fields (`Rip`, `Cs.Selector`, `Reserved_9`, `Cpl`, …) and reserved byte fields overridden: the page hash, or the
+    reject class. Used by the C18 strictness sub-stream (reserved-non-zero / out-of-range values are refused). -/
+def vmsax (f : Fields) : String :=
+  let bsp := Vmsa.ofList cfg.template
+  let sets := ((f.get "set").splitOn ";").filterMap (fun e =>
+    match e.splitOn ":" with
+    | [n, x] => x.toNat?.map (fun k => (n, k))
+    | _ => none)
+  let rsets := ((f.get "rset").splitOn ";").filterMap (fun e =>
+    match e.splitOn ":" with
+    | [n, x] => (hexDecode x).map (fun b => (n, b))
+    | _ => none)
+  let v0 : Vmsa := sets.foldl (fun (v : Vmsa) (p : String × Nat) => v.set p.1 p.2) bsp
+  let v : Vmsa := ⟨v0.f, fun n => ((rsets.find? (fun (p : String × Bytes) => p.1 == n)).map (fun p => p.2)).getD (v0.r n)⟩
+  match putVmsa cfg.layout cfg.sizeofVmsa v (zeros 4096) with
+  | .ok b => "ok " ++ hexEncode (H b)
+  | .err _ => "reject"
+  | .panic s => "panic=" ++ panicFn s
+
 def handle (f : Fields) : String :=
   match f.get "op" with
+  | "vmsax" => vmsax f
   | "ld" => ld ⟨f.int "vcpus", f.nat "product"⟩ (image (f.get "fw"))
   | "snp" => snp f (image (f.get "fw"))
   | "vmsa" => vmsa f
